@@ -31,4 +31,34 @@ pub(crate) mod verif_kani {
         assert!(t.to_u16() == v.wrapping_add(1));
         assert!(t.to_u16() != v);
     }
+    fn any_level() -> crate::decode::DecodeLevel {
+        use crate::decode::*;
+        let app = match kani::any::<u8>() % 4 { 0 => AppDecodeLevel::Nothing, 1 => AppDecodeLevel::FunctionCode, 2 => AppDecodeLevel::DataHeaders, _ => AppDecodeLevel::DataValues };
+        let frame = match kani::any::<u8>() % 3 { 0 => FrameDecodeLevel::Nothing, 1 => FrameDecodeLevel::Header, _ => FrameDecodeLevel::Payload };
+        let physical = match kani::any::<u8>() % 3 { 0 => PhysDecodeLevel::Nothing, 1 => PhysDecodeLevel::Length, _ => PhysDecodeLevel::Data };
+        DecodeLevel { app, frame, physical }
+    }
+
+    /// complete for this request shape: a read request (any valid range, any transaction id, any unit id) formatted for TCP at EVERY
+    /// decode level is exactly the 12 bytes tx-id, protocol id 0, length 6, unit id, function code, start, quantity
+    #[kani::proof]
+    #[kani::unwind(8)]
+    pub(crate) fn k_format_request_tcp() {
+        let start: u16 = kani::any();
+        let count: u16 = kani::any();
+        kani::assume(count >= 1 && start as u32 + count as u32 <= 65536);
+        let range = crate::types::AddressRange::try_from(start, count).unwrap();
+        let tx: u16 = kani::any();
+        let unit: u8 = kani::any();
+        let header = FrameHeader::new_tcp_header(crate::types::UnitId::new(unit), TxId::new(tx));
+        let mut writer = FrameWriter::tcp();
+        let level = any_level();
+        let bytes = writer.format_request(header, FunctionCode::ReadHoldingRegisters, &range, level).unwrap();
+        assert!(bytes.len() == 12);
+        assert!(bytes[0] == (tx >> 8) as u8 && bytes[1] == tx as u8);
+        assert!(bytes[2] == 0 && bytes[3] == 0 && bytes[4] == 0 && bytes[5] == 6);
+        assert!(bytes[6] == unit && bytes[7] == 0x03);
+        assert!(bytes[8] == (start >> 8) as u8 && bytes[9] == start as u8);
+        assert!(bytes[10] == (count >> 8) as u8 && bytes[11] == count as u8);
+    }
 }
